@@ -46,6 +46,26 @@ static int hfun(const HI* h) { return *h % HMOD; }
 typedef DataHashTable<HI, int> HT;
 typedef HT::Elem EL;
 
+// Typed models of three libstdc++ helpers that copy/fill trivially-copyable vector elements bytewise (used by the std::vector
+// copy / growth inside DataHashTable::reMax): the same operation written element by element, which the solver encodes field
+// by field. Used (ll2c "replace") only by c19_hashtable_remax.json; the native build always runs the real libstdc++.
+static inline void copy_elem(EL* d, const EL* s) { d->item = s->item; d->info = s->info; d->stat = s->stat; }
+extern "C" EL* m_copy_elems(const EL* first, const EL* last, EL* result)
+{
+   while(first != last) { copy_elem(result, first); ++first; ++result; }
+   return result;
+}
+extern "C" EL* m_relocate_elems(EL* first, EL* last, EL* result, std::allocator<EL>& alloc)
+{
+   (void)alloc;
+   while(first != last) { copy_elem(result, first); ++first; ++result; }
+   return result;
+}
+extern "C" void m_fill_elems(EL* first, EL* last, const EL& value)
+{
+   for(; first != last; ++first) copy_elem(first, &value);
+}
+
 // abstract content computed by a plain scan over the slots (independent of the probing logic)
 struct Map { int pres[NV]; int inf[NV]; int n; };
 // accessors with concrete indices only (a symbolic index into a struct member array is encoded byte-wise by the solver)
@@ -101,19 +121,20 @@ static void havoc(HT& t)
    t.m_used = vp_int_in(0, TS);
 }
 // real lookups agree with the map (full: has, get and operator[]; otherwise get only - one probe sequence per item)
-static void check_lookups(const HT& t, const Map& m, int id, bool full = true)
+// (assert ids must be literals: the solver build takes them from the call site)
+static void check_lookups(const HT& t, const Map& m, bool full = true)
 {
    for(int w = 0; w < NV; ++w)
    {
       HI h = w;
       const int* g = t.get(h);
-      vp_assert((g != nullptr) == (m.pres[w] != 0), id + 1);
-      if(g != nullptr && m.pres[w]) vp_assert(*g == m.inf[w], id + 2);
+      vp_assert((g != nullptr) == (m.pres[w] != 0), 31);
+      if(g != nullptr && m.pres[w]) vp_assert(*g == m.inf[w], 32);
       if(full)
       {
          bool has = t.has(h);
-         vp_assert(has == (m.pres[w] != 0), id);
-         if(has && m.pres[w]) vp_assert(t[h] == m.inf[w], id + 2);
+         vp_assert(has == (m.pres[w] != 0), 33);
+         if(has && m.pres[w]) vp_assert(t[h] == m.inf[w], 34);
       }
    }
 }
@@ -123,7 +144,7 @@ extern "C" void h_ht_lookup_step()
    HT t(hfun, TS, HS); int step0 = t.m_hashsize;
    havoc(t); vp_assume(inv(t, TS));
    Map m; scan(t, m);
-   check_lookups(t, m, 1);
+   check_lookups(t, m);
    vp_assert(t.m_hashsize == step0 && inv(t, TS), 5);
    vp_cover(1);
 }
@@ -144,7 +165,7 @@ extern "C" void h_ht_add_step()
       if(w == h) vp_assert(m1.pres[w] == 1 && m1.inf[w] == info, 3);
       else vp_assert(m1.pres[w] == m.pres[w] && (!m.pres[w] || m1.inf[w] == m.inf[w]), 4);
    }
-   check_lookups(t, m1, 5);
+   check_lookups(t, m1);
    vp_cover(1);
 }
 extern "C" void h_ht_remove_step()
@@ -162,7 +183,7 @@ extern "C" void h_ht_remove_step()
       if(w == h) vp_assert(m1.pres[w] == 0, 3);
       else vp_assert(m1.pres[w] == m.pres[w] && (!m.pres[w] || m1.inf[w] == m.inf[w]), 4);
    }
-   check_lookups(t, m1, 5);
+   check_lookups(t, m1);
    vp_cover(1);
 }
 extern "C" void h_ht_clear_step()
@@ -173,7 +194,7 @@ extern "C" void h_ht_clear_step()
    vp_assert(inv(t, TS) && t.m_used == 0, 1);
    Map m1; scan(t, m1);
    vp_assert(m1.n == 0, 2);
-   check_lookups(t, m1, 3);
+   check_lookups(t, m1);
    vp_cover(1);
 }
 // bounded history from the constructor against an array model; after every operation every item of the universe is looked up
@@ -205,7 +226,7 @@ extern "C" void h_ht_history()
          m.n = 0;
       }
       vp_assert(t.m_used == m.n && t.m_elem.size() == TS, 1);
-      check_lookups(t, m, 2, false);
+      check_lookups(t, m, false);
    }
    vp_cover(1);
 }
@@ -234,7 +255,7 @@ extern "C" void h_ht_autogrow()
       m.pres[order[s]] = 1; m.inf[order[s]] = info; m.n++;
       if(s == 1 && KREM >= 0 && KREM <= 1) { HI r = order[KREM]; t.remove(r); m.pres[order[KREM]] = 0; m.n--; }
       vp_assert(t.m_used == m.n && t.m_used <= t.m_elem.size(), 1);
-      check_lookups(t, m, 3, false);
+      check_lookups(t, m, false);
    }
    vp_assert(t.m_elem.size() > TS0, 6);          // the table has grown
    vp_cover(1);
@@ -268,6 +289,6 @@ extern "C" void h_ht_remax_kernel()
    t.reMax(NEWTS);
    vp_assert(t.m_used == m.n && t.m_elem.size() == NEWTS, 3);
 #endif
-   check_lookups(t, m, 4);
+   check_lookups(t, m);
    vp_cover(1);
 }
